@@ -1095,7 +1095,9 @@ func (c *EvalCtx) havocTarget(e *SExpr) error {
 								ws := KeySet{}
 								ft := su.Field(i).Type()
 								if _, isT := ex.tm.isTargetStruct(ft); isT {
+									ex.prog.Pre.mu.Lock()
 									ex.prog.Pre.structKeys(ft, ws)
+									ex.prog.Pre.mu.Unlock()
 								} else {
 									key := ex.tm.FieldKey(ty, i)
 									if ex.prog.Pre.AddrTaken[key] {
